@@ -25,7 +25,7 @@ type GenCfg struct {
 	Paths     []string // paths usable in criteria / sort / index (fields + dotted)
 	W         map[string]int
 	Indexes   bool
-	BigBulk   int // when >0: one collection is loaded with this many documents
+	BigBulk   int  // when >0: one collection is loaded with this many documents
 	Determ    bool // only operations whose outcome is fully determined (crash engines)
 	Expiring  bool // some documents carry _expiresAt (past and future instants)
 	Wide      bool // some documents have 16+ top-level fields, a 70000-byte string
@@ -75,7 +75,7 @@ func safePool() []interface{} {
 		arr(), arr(i64(1)), arr(i64(1), i64(2)), arr("a"), arr(i64(1), "a", nil), arr(arr(i64(1))), arr(f64(1)),
 		arr(tm(946684800, 5, 3600, "CET")), arr(obj("k", tm(946684800, 6, -7200, "X"))), arr(obj("k", arr(tm(0, 0, 0, "UTC")))),
 		obj(), obj("k", i64(1)), obj("k", i64(2)), obj("a", i64(1), "b", "x"), obj("k", obj("j", tm(1700000000, 1, 60, "Z1"))), obj("k", nil),
-		tm(946684800, 7, 3601, "odd"), // zone offset that is not a whole number of minutes
+		tm(946684800, 7, 3601, "odd"),                                       // zone offset that is not a whole number of minutes
 		longStr("a"), longStr("b"), longStr("bb"), medStr("x"), medStr("y"), // long strings that differ only after a long common prefix
 		i64(1<<53 - 1), f64(math.MaxFloat64), tm(1700000000, 255, 0, "UTC"), // encodings whose last byte is 0xff
 		arr(obj("k", arr(obj("j", arr(tm(1700000000, 2, -3600, "W"), nil, i64(1)))))), // depth 5
@@ -736,6 +736,10 @@ func (g *Gen) Next(m *model.DB) Op {
 	return op
 }
 
+// abandonable: the write operations (each is one store transaction).
+var abandonable = map[string]bool{"Insert": true, "InsertOne": true, "Save": true, "UpdateById": true, "ReplaceById": true, "Update": true, "UpdateFunc": true,
+	"Delete": true, "DeleteById": true, "CreateCollection": true, "DropCollection": true, "CreateIndex": true, "DropIndex": true, "Import": true, "CreateCollectionByQuery": true}
+
 func (g *Gen) decorate(op *Op) {
 	if len(op.Colls) > 0 {
 		// a fault position means different things on twins with different
@@ -743,6 +747,13 @@ func (g *Gen) decorate(op *Op) {
 		return
 	}
 	switch g.Cfg.Faults {
+	case "restarts":
+		if abandonable[op.K] && g.R.Chance(0.05) {
+			op.Abandon = g.R.Range(1, 20)
+			if (op.K == "UpdateFunc" || op.K == "UpdateById") && g.R.Bool() {
+				op.Abandon, op.Note = g.R.Range(1, 3), "abandon-cb"
+			}
+		}
 	case "faults":
 		if g.R.Chance(0.15) && op.K != "Reopen" && op.K != "CrashRestart" {
 			op.Fault = g.R.Range(1, 12)
@@ -751,6 +762,17 @@ func (g *Gen) decorate(op *Op) {
 			}
 		}
 	case "crashes":
+		if abandonable[op.K] && g.R.Chance(0.06) {
+			// the goroutine executing the operation unwinds in mid-flight
+			op.Abandon = g.R.Range(1, 14)
+			if g.R.Chance(0.3) {
+				op.Abandon = g.R.Range(1, 60)
+			}
+			if (op.K == "UpdateFunc" || op.K == "UpdateById") && g.R.Bool() {
+				op.Abandon, op.Note = g.R.Range(1, 3), "abandon-cb" // inside the caller's update function
+			}
+			return
+		}
 		if g.R.Chance(0.12) && op.K != "Reopen" && op.K != "CrashRestart" {
 			op.Crash = g.R.Range(1, 14)
 			if g.R.Chance(0.3) {
